@@ -1259,9 +1259,12 @@ impl InstructionHandler for DefaultHandler {
                         .iter()
                         .flat_map(|row| row.iter().flat_map(Expression::memory_references)),
                 ),
-                GateSpecification::Permutation(_) | GateSpecification::PauliSum(_) => {
-                    MemoryAccesses::none()
-                }
+                GateSpecification::Permutation(_) => MemoryAccesses::none(),
+                GateSpecification::PauliSum(PauliSum { terms, arguments: _ }) => read_all(
+                    terms
+                        .iter()
+                        .flat_map(|term| term.expression.memory_references()),
+                ),
                 GateSpecification::Sequence(DefGateSequence { gates, qubits: _ }) => gates
                     .iter()
                     .map(gate_application)
